@@ -214,6 +214,8 @@ async def async_request(pool, spec: dict) -> dict:
     except GeneratorExit:
         raise
     except BaseException as exc:
+        if type(exc).__name__ == "Cancelled" and (type(exc).__module__ or "").startswith("trio"):
+            raise  # trio's cancellation must propagate to its scope
         return {"exc": exc_info(exc)}
 
 
@@ -349,7 +351,45 @@ def install_inline_threading():
 install_inline_threading()
 
 
-def run_trio(fn, *args):
+def run_trio_inline(fn, vclock):
+    """Run `await fn()` as a trio task in inline mode (simulated network ops never block). The parent task spins and watches the run queue: a child
+    that is blocked with nothing else runnable either waits for a trio deadline (the virtual clock jumps to it) or is blocked for ever - it is
+    cancelled and the run is reported as a hang. Returns (value | None, hang: bool)."""
     import trio
 
-    return trio.run(fn, *args)
+    from .trio_run import _VClock, _deterministic_scheduling
+
+    res = {"value": None, "hang": False}
+
+    async def main():
+        done = trio.Event()
+
+        async def child():
+            try:
+                res["value"] = await fn()
+            finally:
+                done.set()
+
+        async with trio.open_nursery() as nursery:
+            nursery.start_soon(child)
+            idle = 0
+            spins = 0
+            while not done.is_set():
+                await trio.lowlevel.cancel_shielded_checkpoint()
+                spins += 1
+                st = trio.lowlevel.current_statistics()
+                idle = idle + 1 if st.tasks_runnable == 0 else 0
+                if idle > 20:
+                    if st.seconds_to_next_deadline != float("inf"):
+                        vclock.now += max(0.0, st.seconds_to_next_deadline) + 1e-9
+                        idle = 0
+                        continue
+                    res["hang"] = True
+                    nursery.cancel_scope.cancel()
+                    break
+                if spins > 2_000_000:
+                    raise HarnessHang("inline trio caller never finishes")
+
+    _deterministic_scheduling()
+    trio.run(main, clock=_VClock(vclock))
+    return res["value"], res["hang"]
